@@ -299,8 +299,16 @@ def _subs_view(world):
     idname = {e["id"]: e["name"] for e in subs}
     out = []
     for e in subs:
-        ids = [i for _t, g in (e["deps"] or {"groups": [[]]})["groups"][0] for i in g] if e["deps"] else []
-        out.append((e["name"], sorted(idname.get(i, "?" + i) for i in ids)))
+        d = e["deps"]
+        if not d:
+            ids = []
+        elif isinstance(d, dict) and "groups" in d:  # Slurm
+            ids = [i for grp in d["groups"] for _t, g in grp for i in g]
+        elif isinstance(d, list):  # SGE: the -hold_jid list
+            ids = list(d)
+        else:  # LSF: parsed -w expression
+            ids = list(simsched._lsf_ids(d))
+        out.append((e["name"], sorted(idname.get(str(i), "?" + str(i)) for i in ids)))
     return out
 
 
@@ -357,6 +365,90 @@ def cli_preview_batch(acc, batch):
                               msg=f"{wfname} hashing={hashing} fresh={fresh} setup={setup} sel={sel}: {problems[:2]}")
 
 
+def cli_history_batch(acc, batch):
+    """Histories through the real CLI: `gwf run`, the scheduler runs the dependencies of X to completion, X is started (or not), X's outputs
+    are written (or not), X ends (cancelled by the user / failed / timed out / completed), the scheduler forgets it (or not), then `gwf run`
+    again.  Oracle: the second run submits exactly the reference plan for the world as it then is (a target whose last job failed or was
+    cancelled is submitted even when its files look fresh; pending targets are left alone), each with exactly its prerequisites."""
+    from mc import cliworld as CW
+    from mc.errors import SetupFailed
+    from mc.ref import graph as G
+
+    for wfname, backend, acct, x, started, fresh_out, end, forget in batch:
+        case = dict(kind="cli-history", wf=wfname, backend=backend, accounting=acct, x=x, started=started, fresh_out=fresh_out, end=end, forget=forget)
+        w = CW.init_world(wfname, backend, accounting=acct)
+        tl = [(t.name, set(t.flat("inputs")), set(t.flat("outputs"))) for t in w.wf.targets]
+        rel = G.relations(tl)
+        order = [n for n in G.topo_order(rel["dependencies"])]
+        ups, todo = set(), [x]
+        while todo:
+            for d in rel["dependencies"][todo.pop()]:
+                if d not in ups:
+                    ups.add(d)
+                    todo.append(d)
+        acts = [("gwf", ["run"])]
+        for n in order:
+            if n in ups:
+                acts += [("env", "start", n), ("env", "finish_ok", n)]
+        if started:
+            acts.append(("env", "start", x))
+        if fresh_out:
+            acts += [("modify", o) for o in w.wf.by_name(x).flat("outputs")]
+        if end is not None:
+            acts.append(("env", end, x))
+        if forget:
+            acts.append(("env", "forget", x))
+        try:
+            for a in acts:
+                if a[0] == "env" and a not in CW.enabled_env(w):
+                    raise LookupError(a)
+                w, res = CW.apply_action(w, a)
+                if res is not None and (res.exit_code != 0 or res.crashed()):
+                    raise SetupFailed(case, res.as_dict(), f"`gwf {a[1]}` failed: {res.exc or res.err_summary()}")
+                w.normalize()
+        except LookupError:
+            continue  # this combination is not a possible history (e.g. finishing a job that never started)
+        w.sim["journal"] = []
+        plan = CW.ref_plan(w)
+        w2, r = CW.apply_action(w, ("gwf", ["run"]))
+        got = _subs_view(w2)
+        problems = []
+        if r.exit_code != 0 or r.crashed():
+            problems.append(f"run failed: {r.exc or r.err_summary()}")
+        if sorted(g[0] for g in got) != sorted(plan["submitted"]):
+            problems.append(f"submitted {sorted(g[0] for g in got)} expected {sorted(plan['submitted'])} (scheduler view {{}})".format(
+                {t.name: CW.job_class(w, t.name) for t in w.wf.targets}))
+        else:
+            live = {t.name: CW.latest_job(w, t.name) for t in w.wf.targets}
+            for name, deps in got:
+                want = set(plan["prereqs"][name])
+                named = set(d for d in deps if not d.startswith("?"))
+                old = [d for d in deps if d.startswith("?")]
+                want_old = {n for n in want if n not in plan["submitted"]}
+                if named != want - want_old or len(old) != len(want_old) or any(live[n] is None or "?" + live[n]["id"] not in old for n in want_old):
+                    problems.append(f"{name} submitted with prerequisites {deps}, expected {sorted(want)}")
+        acc.case(key=json.dumps(case, sort_keys=True), outcome=f"history n_submit={len(got)}", sample=case, nontrivial=bool(got))
+        acc.extra["cli_invocations"] += 2
+        if problems:
+            acc.violation(sig=dict(kind="cli-history", backend=backend, end=end, what=problems[0].split(" ")[0]), case=case, observed=problems,
+                          msg=f"{wfname}/{backend} acct={acct} X={x} started={started} outputs_written={fresh_out} end={end} forgotten={forget}: {problems[:2]}")
+
+
+def history_items(quick):
+    from mc import cliworld as CW
+
+    items = []
+    for wfname in (("chain",) if quick else ("chain", "fork", "shortcut", "diamond")):
+        for backend, acct in (("slurm", True), ("slurm", False), ("sge", True), ("lsf", True)):
+            for t in CW.WORKFLOWS[wfname]().targets:
+                for started in (False, True):
+                    for fresh_out in (False, True):
+                        for end in (None, "cancel", "finish_fail", "timeout", "finish_ok"):
+                            for forget in (False, True):
+                                items.append((wfname, backend, acct, t.name, started, fresh_out, end, forget))
+    return items
+
+
 def preview_items(quick):
     from mc import cliworld as CW
 
@@ -390,6 +482,7 @@ def run(ctx):
     ctx.pmap(me, "cli_batch", [(dag, fresh, sel) for dag in dags for fresh in (("missing",) * 3, ("newer", "older", "missing"), ("newer", "newer", "newer"))
                                for sel in selections(3, False)], chunk=16)
     ctx.pmap(me, "cli_preview_batch", preview_items(quick), chunk=2)
+    ctx.pmap(me, "cli_history_batch", history_items(quick), chunk=8)
     ctx.pmap(me, "wf_batch", c01.wf_items(2, 3), ranks=2 if quick else 3, sels=(None, ["T1"]) if quick else (None, ["T0"], ["T1"]))
     ctx.rule = ("case = (labelled DAG, per-target freshness, backend-state vector, selection) or (2-target/3-file workflow, file state, "
                 "backend vector, selection); non-trivial = at least one submission happens")
@@ -441,6 +534,9 @@ def replay(case):
     c = case
     if c["kind"] == "cli":
         cli_batch(acc, [(tuple(tuple(x) for x in c["dag"]), tuple(c["fresh"]), c["sel"])])
+        return acc.violations
+    if c["kind"] == "cli-history":
+        cli_history_batch(acc, [(c["wf"], c["backend"], c["accounting"], c["x"], c["started"], c["fresh_out"], c["end"], c["forget"])])
         return acc.violations
     if c["kind"] == "cli-preview":
         cli_preview_batch(acc, [(c["wf"], c["hashing"], c["fresh"], tuple(tuple(a) for a in c["setup"]), tuple(c["sel"]))])
